@@ -390,6 +390,21 @@ def check_symmetrize(ctx, ca, S, L, cid, case, origin):
                     return
 
 
+def long_lag(ctx, r, T, N, tau_max, data, tags):
+    """In a few cases: lags beyond 127 / 255 (lag matrices of narrow integer
+    type), with a lagged copy planted so that the maximum sits there."""
+    if r.random() >= 0.03:
+        return T, tau_max, data, tags
+    T = int(r.integers(300, 420))
+    tau_max = int(r.choice([128, 130, 200, 260]))
+    data = r.normal(size=(T, N))
+    lag = int(r.integers(128, tau_max + 1))
+    a, b = (0, 1) if r.random() < 0.5 else (1, 0)
+    data[lag:, a] = data[:-lag, b] + 0.05 * r.normal(size=T - lag)
+    ctx.count("long_lag_cases")
+    return T, tau_max, data, list(tags) + [f"planted-lag-{lag}"]
+
+
 def fam_cc(ctx, mods, r, k, cid):
     CouplingAnalysis, PurePy = mods["CA"], mods["PP"]
     Tmax = 400 if ctx.thorough else 60
@@ -399,6 +414,7 @@ def fam_cc(ctx, mods, r, k, cid):
     tau_max = int(r.integers(0, min(5, T - 2) + 1))
     style = str(r.choice(["normal", "ar", "dyadic", "int"]))
     data, tags = gen_data(r, T, N, style)
+    T, tau_max, data, tags = long_lag(ctx, r, T, N, tau_max, data, tags)
     case = {"T": T, "N": N, "tau_max": tau_max, "tags": tags,
             "data": data if data.size <= 60 else None}
     res = check_cc_core(ctx, CouplingAnalysis, data, tau_max, cid, case)
@@ -588,6 +604,7 @@ def fam_mi(ctx, mods, r, k, cid):
     tau_max = int(r.integers(0, min(5, T - 2) + 1))
     style = str(r.choice(["normal", "ar", "dyadic", "int"]))
     data, tags = gen_data(r, T, N, style)
+    T, tau_max, data, tags = long_lag(ctx, r, T, N, tau_max, data, tags)
     M = T - tau_max
     case = {"T": T, "N": N, "tau_max": tau_max, "tags": tags,
             "data": data if data.size <= 60 else None}
@@ -817,6 +834,60 @@ def fam_mi(ctx, mods, r, k, cid):
 # --------------------------------------------------------------------------
 # family knn
 # --------------------------------------------------------------------------
+def long_record_mi(ctx, mods, r, k, cid):
+    """Hundreds of thousands of samples of strongly dependent series: single
+    histogram cells hold more than 32767 / 65535 samples.  Binning and
+    Gaussian MI and the lag-0 correlation against the references."""
+    T = int([200004, 400002, 262146, 600000][k % 4])
+    bins = int([6, 4, 3, 6][k % 4])
+    x = r.normal(size=T)
+    data = np.column_stack([x, x + 0.02 * r.normal(size=T),
+                            r.normal(size=T)])
+    ca = mods["CA"](data.copy(), silence_level=3)
+    case = {"T": T, "N": 3, "bins": bins, "generator": "x, x+0.02 noise, "
+            "independent noise", "case": cid}
+    name = "CouplingAnalysis.mutual_information:binning"
+    ok, B = ctx.call(ca.mutual_information, tau_max=0, estimator="binning",
+                     bins=bins, lag_mode="all")
+    ctx.evals()
+    ctx.count("long_records")
+    if not ok:
+        ctx.violation(f"{name}:long-record:raises:{type(B).__name__}",
+                      {**case, "exc": repr(B)}, cid)
+    else:
+        RB = ref.mi_binning_all(data, 0, bins)
+        nbad, mx, idx = worst(B, RB, TOL_R, 1e-6)
+        ctx.maxstat("long_record_binning_err", mx)
+        if nbad:
+            ctx.violation(f"{name}:long-record:differs",
+                          {**case, "at": idx, "lib": float(B[tuple(idx)]),
+                           "ref": float(RB[tuple(idx)])}, cid)
+        ctx.nontrivial(("longrec", T, bins))
+    ok, Gm = ctx.call(ca.mutual_information, tau_max=0, estimator="gauss",
+                      lag_mode="all")
+    ctx.evals()
+    if ok:
+        RG, rr = ref.mi_gauss_all(data, 0)
+        # (near-singular pairs: -log(1-r^2)/2 amplifies the float32 rounding
+        #  of r without bound; they are compared in the binning estimator)
+        RG = np.where(np.abs(rr) < 0.9, RG, np.nan)
+        Gm = np.where(np.abs(rr) < 0.9, np.asarray(Gm, float), np.nan)
+        nbad, mx, idx = worst(Gm, RG, 1e-4, 1e-4)
+        if nbad:
+            ctx.violation("CouplingAnalysis.mutual_information:gauss:"
+                          "long-record:differs",
+                          {**case, "at": idx, "lib": float(Gm[tuple(idx)]),
+                           "ref": float(RG[tuple(idx)])}, cid)
+    ok, Cc = ctx.call(ca.cross_correlation, tau_max=0, lag_mode="all")
+    ctx.evals()
+    if ok:
+        RC = np.corrcoef(data.T)
+        if np.abs(np.asarray(Cc)[:, :, 0] - RC).max() > 1e-4:
+            ctx.violation("CouplingAnalysis.cross_correlation:long-record:"
+                          "differs", {**case, "lib": np.asarray(Cc)[:, :, 0],
+                                      "ref": RC}, cid)
+
+
 def fam_knn(ctx, mods, r, k, cid):
     CouplingAnalysis = mods["CA"]
     Tmax = 200 if ctx.thorough else 60
@@ -1496,6 +1567,18 @@ def run(ctx):
                 ctx.count("exhaustive_cc_cases")
                 if res is not None and nondegenerate_r(res[3]):
                     ctx.nontrivial(dkey("cc", tau_max, data))
+
+    # (a2) long records: bin populations beyond 16-bit ranges --------------
+    for k in range(8 if ctx.thorough else 2):
+        cid = f"longrec:{k}"
+        if not ctx.mine(k) or not ctx.start(cid):
+            continue
+        faulthandler.dump_traceback_later(HARD_KILL_S, exit=True)
+        try:
+            with ctx.guard(240):
+                long_record_mi(ctx, mods, ctx.rng("longrec", k), k, cid)
+        finally:
+            faulthandler.cancel_dump_traceback_later()
 
     # (b) seeded random families -------------------------------------------
     sched = []
